@@ -3,6 +3,7 @@ trace specification judges them, which fields the negative control corrupts."""
 import json
 import os
 import re
+import random as _r
 
 from vlib import Infra, log, NCPU
 
@@ -845,9 +846,14 @@ def c09(r):
               "protocol by Trace_Cache; every call sequence of length <= %d over an alphabet of 9 calls (3 years incl. a leap-11 year, month "
               "walking across years, two invalid calls that panic and are recovered) is executed in one process and each result compared with "
               "its reference; a -race build runs 16 goroutines of mixed calls plus rounds of 8 goroutines reading one fresh shared object, "
-              "race reports become events that no action accepts. Distinct non-trivial case = distinct schedule or history." %
+              "race reports become events that no action accepts. Session.tla specifies the whole mutable state a client can see (date objects with "
+              "their chart convention, chart handles as views, the holiday table) and which call may change which part; TLC checks the frame "
+              "conditions (%s) and enumerates every session of 4 calls (Create / Handle / SetSect / Fix / recovered panic; 17 076), %s of which are "
+              "executed on real objects with a digest of every accessor of every live object after every call: an object nobody touched and a "
+              "holiday day no fix-up touched must show their fresh-state reference. Distinct non-trivial case = distinct schedule, history or session." %
               ("4 processes x 2 calls (12M states) and 3 x 2 with liveness" if thorough else "3 processes x 2 calls x 2 years (97k states)",
-               "2520 orders of 4x2" if thorough else "90 orders of 3x2", 5 if thorough else 4))
+               "2520 orders of 4x2" if thorough else "90 orders of 3x2", 5 if thorough else 4,
+               "205k states, depth 5" if thorough else "19k states, depth 4", "all" if thorough else "2 500 seeded"))
     r.assumptions += ["interleavings are exhaustive at lock granularity for 3-4 goroutines; below that granularity the Go race detector observes executed schedules only",
                       "NewLunarYear's computation is total (no panic under the lock): observed for years -2000..12000 in this run, not proved"]
     r.build()
@@ -902,6 +908,43 @@ def c09(r):
         e["calls"][-1][1] = "x"
         return True
     r.negctl("Trace_Cache", ch_h[0], {"C09Hist": [(hdig, "C09.result.independent-of-history")]})
+    # the library as one state machine (Session.tla): TLC enumerates client sessions, real objects replay them
+    r.mc("MC_Session", "MC_Session_5" if thorough else "MC_Session", timeout=900)
+    sessions = r.export_edges("MC_Session", "MBT_Session")
+    if not thorough:
+        _r.Random(r.seed).shuffle(sessions)
+        sessions = sorted(sessions[:2500])
+    slines = []
+    for s in sessions:
+        slines.append("|".join("%s:%d:%d" % (a[0], a[1], a[2]) for a in tla_tuple_to_py(s)))
+    sf = os.path.join(r.dir, "sessions.txt")
+    write_lines(sf, slines)
+    r.cov["replayed_edges"] += len(slines)
+    r.cov["sessions_replayed"] = len(slines)
+    ch_x = r.drive("c09sessions", args={"sessions": sf}, maxlines=3000)
+    r.validate("Trace_Session", ch_x)
+    for s in slines:
+        r.nontrivial.add(("session", s))
+    def s_lunar(e):
+        for i, d in enumerate(e["obs"]["lunar"]):
+            if d:
+                e["obs"]["lunar"][i] = "0" * 16
+                return True
+        return False
+    def s_chart(e):
+        # the digest of the other convention: what a chart that ignored SetSect (or leaked it) would show
+        for i, d in enumerate(e["obs"]["chart"]):
+            if d:
+                e["obs"]["chart"][i] = d[::-1]
+                return True
+        return False
+    def s_hol(e):
+        e["obs"]["hol"][0] = "none" if e["obs"]["hol"][0] != "none" else "x"
+        return True
+    def s_panic(e):
+        e["p"] = 1 - e["p"]
+        return True
+    r.negctl("Trace_Session", ch_x[0], {"SessStep": [(s_lunar, ("C09.session.lunar", "EXT.session.lunar")), (s_chart, ("C09.session.chart", "EXT.session.chart")), (s_hol, ("C09.session.holiday", "EXT.session.holiday")), (s_panic, "C09.session.recovered-panic")]})
 
 
 # --------------------------------------------------------------- C10 / C12
